@@ -21,7 +21,7 @@ MCFoldTable == [Foo |-> "foo", foo |-> "foo", FOO |-> "foo", Bar |-> "bar", bar 
                 spec |-> "spec", Spec |-> "spec", Metadata |-> "metadata", metadata |-> "metadata",
                 a |-> "a", A |-> "a", B |-> "b", b |-> "b", x |-> "x", X |-> "x", n |-> "n", Dup |-> "dup", New |-> "new",
                 Zed |-> "zed", zz |-> "zz", ID |-> "id", PreFoo |-> "prefoo", Prefoo |-> "prefoo",
-                PreBar |-> "prebar", Prespec |-> "prespec", PreMetadata |-> "premetadata", p |-> "p", q |-> "q"]
+                PreBar |-> "prebar", Prespec |-> "prespec", PreMetadata |-> "premetadata", p |-> "p", q |-> "q", P |-> "p"]
 MCTrimTable == [x \in {" a "} |-> "a"]
 MCHintRank  == [h1 |-> 1, h2 |-> 2, skip_variant_plugin_registration |-> 3]
 
@@ -39,7 +39,8 @@ TypePool == <<
   TEnum(<<Member("A", VStr(" a "), "string"), Member("B", VStr("b"), "string")>>),
   TDisj(<<TRef("p", "Foo"), TRef("p", "Bar")>>, "kind", <<MapTo("x", "Foo"), MapTo("y", "Bar")>>),
   TRef("q", "Foo"),
-  TStruct(<<Field("a", TConstRef("p", "Bar", VStr("x")), TRUE), Field("A", WithHints(TString, <<Hint("h1", VStr("v"))>>), FALSE)>>)
+  TStruct(<<Field("a", AsNullable(TConstRef("p", "Bar", VStr("x"))), TRUE),     \* required AND nullable (CUE `a: T | null`)
+            Field("A", WithHints(TString, <<Hint("h1", VStr("v"))>>), FALSE)>>)
 >>
 PNames == {"Foo", "foo", "Bar", "spec", "Spec"}
 
@@ -61,7 +62,10 @@ InSlice(s) == Len(s) = 1 \/ SeqKey(s) % NSlices = Slice
 PSchemas == {[SchemaOf("p", [i \in DOMAIN s |-> ObjOf(s[i])]) EXCEPT !.entry = e, !.entrytype = IF e = "" THEN TNone ELSE TRef("p", e)] :
                <<s, e>> \in {<<s2, e2>> \in {x \in SlotSeqs(MaxObjs) : Len(x) >= 1 /\ DistinctNames(x) /\ InSlice(x)} \X {"", "Foo", "spec", "Spec"} :
                                e2 = "" \/ e2 = s2[1][1]}}
-InitIRs == {<<ps, QSchema>> : ps \in PSchemas}
+\* a package whose name differs from "p" only in letter case and holds the same object/field names: selection is
+\* "package exact", so nothing aimed at p may touch it (one-object IRs only: it adds no states, only volume)
+UpperPSchema == SchemaOf("P", <<Obj("P", "Foo", TStruct(<<FieldC("a", AsNullable(TString), TRUE, <<"fa">>), Field("B", TRef("P", "Foo"), FALSE)>>))>>)
+InitIRs == {IF Len(ps.objects) = 1 THEN <<ps, QSchema, UpperPSchema>> ELSE <<ps, QSchema>> : ps \in PSchemas}
 
 (* ---------------------------- parameterisations ------------------------ *)
 ORefs  == {ObjRef("p", "Foo"), ObjRef("p", "foo"), ObjRef("p", "Bar"), ObjRef("q", "foo"), ObjRef("p", "Zed"), ObjRef("p", "spec")}
